@@ -1,1 +1,49 @@
-From TB Require Import Base.
+(** C04 - already-verified export data is never rewritten, damaged or lost across runs.  Statements only. *)
+From TB Require Import Base Decimal BencodeModel TorrentModel TorrentProofs PathModel FsModel SolverModel FinderModel RunModel
+                       SolverProofs RunProofs FsProofs FaultProofs PreludeProofs TableProofs FinderProofs SearchProofs PresentProofs Generated GeneratedObligations.
+From Coq Require Import Permutation Sorted.
+Local Open Scope N_scope.
+
+(** The export location, when registered for its own entry, is the FIRST candidate - ranking puts
+    the exact path first and hard-link pruning keeps the first occurrence - whatever the iteration
+    order of the hash map. *)
+Theorem C04_export_file_is_first_candidate ix e ns id l :
+  e_pad e = false -> nodes_of ix (e_len e) = Some ns -> NoDup (map fst ns) -> In (e_target e, id) ns ->
+  searches_for ix e = Ok (Some l) -> exists rest, l = e_target e :: rest.
+Proof. exact (export_first ix e ns id l). Qed.
+
+(** A piece that verifies in the export tree (every non-padding segment's first candidate is its
+    own export file and that file holds the torrent's bytes there) succeeds without issuing a
+    single mutating operation: the all-first combination is tried first, matches, and the writer
+    skips every segment whose source is its own target. *)
+Theorem C04_verified_multi_piece_not_written H content ans pc c : cache_of ans (w_segs pc) = Some c -> w_segs pc <> [] ->
+  wf_segs content (w_segs pc) ->
+  Forall target_first (w_segs pc) -> Forall (target_holds content ans) (w_segs pc) -> Forall (pad_zero content) (w_segs pc) ->
+  H (piece_bytes content pc) = w_hash pc ->
+  eval ans (multi_prog H pc) = ([], Success).
+Proof. exact (multi_verified_not_written H content ans pc c). Qed.
+
+Theorem C04_verified_single_piece_not_written H content ans pc s rest : w_segs pc = [s] -> e_pad (ps_entry s) = false ->
+  ps_off s + ps_len s <= N.of_nat (length (content (ps_entry s))) ->
+  ans (e_target (ps_entry s)) (ps_off s) (ps_len s) = Some (seg_bytes content s) ->
+  H (piece_bytes content pc) = w_hash pc ->
+  eval ans (single_prog H pc s (e_target (ps_entry s) :: rest)) = ([], Success).
+Proof. exact (single_verified_not_written H content ans pc s rest). Qed.
+
+(** Whatever else a run (or any sequence of runs, complete, faulty or interrupted) does, a byte
+    range that holds the torrent's bytes keeps holding them under every admissible operation:
+    writes only put content, set_len to the declared length never cuts a range inside it, files are
+    never opened with truncate.  So the set of verifying pieces only grows. *)
+Theorem C04_verified_ranges_preserved truth decl f0 ops f1 j lo hi : run_ops (adm truth decl) f0 ops f1 -> (hi <= decl j)%nat ->
+  holds (truth j) (fs_content f0 j) lo hi -> holds (truth j) (fs_content f1 j) lo hi.
+Proof. exact (fs_ops_preserve_verified truth decl f0 ops f1 j lo hi). Qed.
+
+(** No truncation on open, at any of the write-mode call sites (re-extracted from the source). *)
+Theorem C04_never_truncates : of_truncate writer_open = false /\ of_truncate resize_fix_open = false.
+Proof. split; reflexivity. Qed.
+
+Print Assumptions C04_export_file_is_first_candidate.
+Print Assumptions C04_verified_multi_piece_not_written.
+Print Assumptions C04_verified_single_piece_not_written.
+Print Assumptions C04_verified_ranges_preserved.
+Print Assumptions C04_never_truncates.
